@@ -114,6 +114,14 @@ func (s *JavaAPIListener) EnterAnnotation(ctx *parser.AnnotationContext) {
 		if hasEnterClass {
 			addApiMethod(annotationName)
 		}
+		if ctx.ElementValuePairs() != nil {
+			for _, valuePair := range ctx.ElementValuePairs().(*parser.ElementValuePairsContext).AllElementValuePair() {
+				pair := valuePair.(*parser.ElementValuePairContext)
+				if pair.Identifier().GetText() == "value" {
+					currentRestAPI.Uri = baseApiUrl + unquote(pair.ElementValue().GetText())
+				}
+			}
+		}
 
 		return
 	}
